@@ -231,6 +231,11 @@ func RunC07(tier, replay string) int {
 	r.Assume = []string{"map iteration is the only nondeterminism owned in (a); anything else (time, randomness, goroutines in dependencies) is detected by the 3 fresh-process runs of the uninstrumented binary", "range-over-map sites inside dependencies (go-openapi/*) are not instrumented; they are covered by the fresh-process comparison only"}
 	s := NewScratch("C07")
 	defer s.Close()
+	if os.Getenv("VERIF_C07_PART") == "b" { // development aid: only the concurrency part
+		r.Prop = "C07b"
+		runC07Concurrency(r, s, tier)
+		return r.Finish()
+	}
 
 	// ---- instrument + build
 	instDir := filepath.Join(s.Dir, "inst")
@@ -285,6 +290,11 @@ func RunC07(tier, replay string) int {
 		if err := readJSONFile(replay, &rep); err != nil {
 			fmt.Fprintln(os.Stderr, err)
 			return 2
+		}
+		if rep.Case.Command == "" {
+			// a schedule / race case: the whole concurrency part is re-run (about a minute)
+			runC07Concurrency(r, s, tier)
+			return r.Finish()
 		}
 		var keep []c07Cmd
 		for _, c := range cmds {
